@@ -50,7 +50,8 @@ PROPS = {
                 second=dict(engine="e6", job_property="C26c", rule="e6-conc", share=0.35)),
     "C17": dict(engine="e3", level="exploration", rule="e3-derive"),
     "C18": dict(engine="e3", level="exploration", rule="e3-encrypt"),
-    "C19": dict(engine="e3", level="exploration", rule="e3-service"),
+    "C19": dict(engine="e3", level="exploration", rule="e3-service",
+                second=dict(engine="e1", job_property="C19c", rule="e5-conc-disk", external=True, replay_attempts=3, must_reproduce=True, share=0.3)),
     "C20": dict(engine="e3", level="fault_enumeration", rule="e3-crash", evaluations_counter="crash.states", distinct="states"),
     "C32": dict(engine="e2", level="exploration", rule="e2-pool", external=True, replay_attempts=10),
 }
@@ -95,6 +96,9 @@ RULES = {
                "every acquisition of the wallet service lock (hook H9: sync.RWMutex semantics, waiters block durably) and every gap between two requests is a scheduling point decided "
                "by the tape (a goroutine inside a database transaction is never parked); a request that never returns - every remaining client blocked, nothing left to schedule, one "
                "simulated minute passed - is a violation, panics and statuses are judged as in the sequential phase; non-trivial = at least 10 scheduling decisions",
+    "e5-conc-disk": "one run = the concurrent phase of C28 (2-4 client goroutines with 3-8 scripted wallet requests each through the real handler, every acquisition of the "
+                    "wallet service lock (hook H9) and every gap between requests a tape-chosen scheduling point); when every request has been answered the wallets the service holds in "
+                    "memory are compared with what a service started afresh on the same directory loads; non-trivial = at least 10 scheduling decisions",
     "e5-crash": "one run = a real node with a chain of 2-6 blocks, a non-empty pool, two wallets and kv data; 20-80 requests over all documented routes and methods with "
                 "parameters built from live state (addresses, output ids, transaction ids, raw transactions: pooled, confirmed, spending spent outputs, malformed, truncated) "
                 "and mutated (missing, huge, negative, non-UTF-8, wrong content type, malformed JSON, oversized bodies); a panic, a status outside 200-599, an unparsable "
